@@ -61,10 +61,13 @@ struct LimitOracle {
     {
         const PoolSnap after = ms.Snapshot();
         st.steps++;
-        // ---- usage
-        VCHECK(int64_t(usage_now) <= lim.max_bytes, "c27.usage", what, "DynamicMemoryUsage", usage_now, "exceeds the configured maximum", lim.max_bytes, "pool", after.entries.size());
-        if (int64_t(usage_now) * 10 >= lim.max_bytes * 9) st.cls("usage>=90%");
-        // ---- clusters (own union-find)
+        // ---- what this submission added / evicted
+        std::vector<CTransactionRef> added, evicted;
+        for (size_t i = ev_mark; i < ms.Events().size(); ++i) {
+            const PoolEvent& e = ms.Events()[i];
+            if (e.kind == PoolEvent::ADDED) added.push_back(e.tx);
+            if (e.kind == PoolEvent::REMOVED && e.reason == MemPoolRemovalReason::SIZELIMIT) evicted.push_back(e.tx);
+        }
         const ModelPool m = ModelPool::From(after.Txs());
         auto adj_weight = [&](const Txid& t) {
             const CTransaction& tx = *m.txs.at(t);
@@ -72,21 +75,20 @@ struct LimitOracle {
             const int64_t so = ModelSigOpCost(tx, [&](const COutPoint& op) -> std::optional<CScript> { auto c = CoinOf(op, after, before); if (c) return c->scriptPubKey; return std::nullopt; });
             return std::max<int64_t>(w, so * 20);
         };
-        size_t biggest = 0;
-        for (const auto& comp : m.Clusters()) {
-            int64_t w = 0;
-            for (const auto& t : comp) w += adj_weight(t);
-            biggest = std::max(biggest, comp.size());
-            VCHECK(comp.size() <= lim.cluster_count, "c27.cluster-count", what, "cluster of", comp.size(), "transactions, limit", lim.cluster_count);
-            VCHECK(w <= lim.cluster_vbytes * 4, "c27.cluster-size", what, "cluster weight", w, "exceeds 4 x", lim.cluster_vbytes);
-        }
-        if (biggest == lim.cluster_count) st.cls("cluster-at-count-limit");
-        // ---- what this submission added / evicted
-        std::vector<CTransactionRef> added, evicted;
-        for (size_t i = ev_mark; i < ms.Events().size(); ++i) {
-            const PoolEvent& e = ms.Events()[i];
-            if (e.kind == PoolEvent::ADDED) added.push_back(e.tx);
-            if (e.kind == PoolEvent::REMOVED && e.reason == MemPoolRemovalReason::SIZELIMIT) evicted.push_back(e.tx);
+        if (!added.empty()) {
+            // ---- usage (the statement speaks about the state after an ACCEPTANCE; e.g. PrioritiseTransaction alone may grow the usage without trimming)
+            VCHECK(int64_t(usage_now) <= lim.max_bytes, "c27.usage", what, "DynamicMemoryUsage", usage_now, "exceeds the configured maximum", lim.max_bytes, "pool", after.entries.size());
+            if (int64_t(usage_now) * 10 >= lim.max_bytes * 9) st.cls("usage>=90%");
+            // ---- clusters (own union-find)
+            size_t biggest = 0;
+            for (const auto& comp : m.Clusters()) {
+                int64_t w = 0;
+                for (const auto& t : comp) w += adj_weight(t);
+                biggest = std::max(biggest, comp.size());
+                VCHECK(comp.size() <= lim.cluster_count, "c27.cluster-count", what, "cluster of", comp.size(), "transactions, limit", lim.cluster_count);
+                VCHECK(w <= lim.cluster_vbytes * 4, "c27.cluster-size", what, "cluster weight", w, "exceeds 4 x", lim.cluster_vbytes);
+            }
+            if (biggest == lim.cluster_count) st.cls("cluster-at-count-limit");
         }
         if (!evicted.empty()) {
             // aggregate feerate of the evicted set, from the snapshot before (modified fees) or, for txs added by this very submission, from own fee computation + delta
@@ -183,6 +185,7 @@ VERIF_TARGET(c27_limits, nullptr, 160, 2200,
              "eviction for space happened, or a TRUC parent-child pair was in the pool, or a dust output was spent by an accepted child; distinct = history shape + cfg + burst kinds")
 {
     MempoolSimOpts o;
+    o.with_mempool_checks = false; // CTxMemPool::check() after every ATMP is C22's extra monitor; here it would only cost time (O(pool) + 256 KiB cache per call)
     Limits lim{300'000'000, 64, 101'000};
     static const char* const kCount[] = {"-limitclustercount=64", "-limitclustercount=2", "-limitclustercount=3", "-limitclustercount=5", "-limitclustercount=9", "-limitclustercount=24"};
     static const unsigned kCountV[] = {64, 2, 3, 5, 9, 24};
